@@ -612,7 +612,7 @@ def candidates(scn):
 
 
 BUDGET = {
-    "quick": {"runs": 2000, "seconds": 50, "selfcheck": 2, "crosscheck": 8},
+    "quick": {"runs": 3200, "seconds": 50, "selfcheck": 2, "crosscheck": 8},
     "thorough": {"runs": 120000, "seconds": 1500, "selfcheck": 10, "crosscheck": 30},
 }
 
